@@ -1,9 +1,189 @@
-/- line protocol stub for component `Pool` (filled in by the component's owner) -/
+import Tulz.Model.Pool
+import Tulz.Drv.Util
+/-
+  Lock-step replay of an observed execution of tulz::ThreadPool on the model (DESIGN.md 5.3 / 6.5).
+  The harness + canonicaliser report one line per completed critical section of the owner (`ocs q …` for
+  m_queueMutex with the tasks destroyed inside, `ocs p [spawn w]` for m_poolMutex) and of a worker (`wcs w`: released
+  m_queueMutex by unlocking, `wpark w`: by blocking in m_condition.wait), per notification (`onotify one [w]`,
+  `onotify all w…`), per join (`joined w`), per task event (`runBegin t w`, `runEnd t w`, `destroy t w`) and per owner
+  observation (`submit t`, `stopReturned`, `threadCount n`).  Given the thread the model step is determined
+  (`TPool.xstep?`); after the step the driver checks that the model agrees with what was observed.
+-/
 namespace Tulz.Drv.Pool
+open _root_.TPool
 
-abbrev State := Unit
-def init : State := ()
+abbrev State := Option TPool.State
+def init : State := none
 
-def step (s : State) (_args : List String) : State × String := (s, "bad-op")
+def parseOp (s : String) : Option OwnerOp :=
+  match s.toList with
+  | 's' :: r => (String.ofList r).toNat?.map OwnerOp.start
+  | ['c'] => some .clear
+  | ['x'] => some .stop
+  | _ => none
+
+def opStr : OwnerOp → String
+  | .start t => s!"s{t}"
+  | .clear => "c"
+  | .stop => "x"
+
+def todoStr (l : List OwnerOp) : String := ",".intercalate (l.map opStr)
+
+def ownerStr : Owner → String
+  | .idle todo => s!"idle[{todoStr todo}]"
+  | .spawn todo => s!"spawn[{todoStr todo}]"
+  | .notifyOne todo => s!"notifyOne[{todoStr todo}]"
+  | .stopNotify todo => s!"stopNotify[{todoStr todo}]"
+  | .join rem todo => s!"join({joinNat rem})[{todoStr todo}]"
+  | .clearQ todo => s!"clearQ[{todoStr todo}]"
+
+def workerStr : Worker → String
+  | .check => "check"
+  | .parked n => if n then "parked(notified)" else "parked"
+  | .running t => s!"running({t})"
+  | .ran t => s!"ran({t})"
+  | .exited => "exited"
+
+def wStr (x : TPool.State) (w : Nat) : String := ((x.ws[w]?).map workerStr).getD "?"
+
+def status (x : TPool.State) : String :=
+  s!"owner={ownerStr x.owner} running={x.running} queue=[{joinNat x.queue}] pool=[{joinNat x.pool}] ws=" ++
+  " ".intercalate ((List.range x.ws.length).map fun i => s!"{i}:{wStr x i}")
+
+def asleepSet (x : TPool.State) : List Nat :=
+  (List.range x.ws.length).filter fun i => x.ws[i]? == some (.parked false)
+
+/-- labels enabled in `x` -/
+def enabled (x : TPool.State) : List String :=
+  let ws := List.range x.ws.length
+  (if (xstep? x (.owner none)).isSome then ["owner"] else []) ++
+  (ws.filter fun w => (xstep? x (.owner (some w))).isSome).map (fun w => s!"owner-notify-{w}") ++
+  (ws.filter fun w => (xstep? x (.worker w)).isSome).map (fun w => s!"worker-{w}")
+
+def mism (st : State) (x : TPool.State) (msg : String) : State × String := (st, s!"MISMATCH {msg} | {status x}")
+
+def ownerMove (st : State) (x : TPool.State) (what : String) (woken : Option Nat) (ok : TPool.State → Option String) :
+    State × String :=
+  match xstep? x (.owner woken) with
+  | none => mism st x s!"{what}: no owner step"
+  | some y =>
+    match ok y with
+    | none => (some y, "ok")
+    | some m => (some y, s!"MISMATCH {what}: {m} | {status y}")
+
+def step (st : State) (args : List String) : State × String :=
+  match args with
+  | ["init", mx, prog] =>
+    match mx.toNat?, (prog.splitOn ",").mapM parseOp with
+    | some m, some p => (some (TPool.init m p), "ok")
+    | _, _ => (st, "bad-op")
+  | _ =>
+  match st with
+  | none => (none, "MISMATCH no-init")
+  | some x =>
+    match args with
+    | ["submit", t] =>
+      match t.toNat?, x.owner with
+      | some t, .idle (.start t' :: _) => if t == t' then (st, "ok") else mism st x s!"submit {t}: program says {t'}"
+      | some t, _ => mism st x s!"submit {t}: owner is not about to start"
+      | none, _ => (st, "bad-op")
+    | "ocs" :: "q" :: ds =>
+      match parseNats ds with
+      | none => (st, "bad-op")
+      | some ds =>
+        match x.owner with
+        | .idle (.start _ :: _) | .idle (.stop :: _) =>
+          if ds.isEmpty then ownerMove st x "ocs q" none (fun _ => none)
+          else mism st x s!"ocs q: tasks {ds} destroyed inside a start/stop critical section"
+        | .idle (.clear :: _) | .clearQ _ =>
+          if ds == x.queue then ownerMove st x "ocs q" none (fun _ => none)
+          else mism st x s!"ocs q: destroyed {ds}, the model's queue is {x.queue}"
+        | _ => mism st x "ocs q: the owner has no queue critical section here"
+    | ["ocs", "p"] =>
+      match x.owner with
+      | .spawn _ => ownerMove st x "ocs p" none (fun y => if y.ws.length == x.ws.length then none else some "model spawns a worker, none observed")
+      | .join [] _ => ownerMove st x "ocs p" none (fun _ => none)
+      | _ => mism st x "ocs p: the owner has no pool critical section here (or joins are pending)"
+    | ["ocs", "p", "spawn", w] =>
+      match w.toNat?, x.owner with
+      | some w, .spawn _ =>
+        ownerMove st x "ocs p spawn" none (fun y =>
+          if y.ws.length == x.ws.length + 1 && w == x.ws.length then none
+          else some s!"observed a spawn of worker {w}, model: pool {x.pool.length}/{x.max}, next index {x.ws.length}")
+      | some _, _ => mism st x "ocs p spawn: the owner is not in start()"
+      | none, _ => (st, "bad-op")
+    | ["onotify", "one"] =>
+      match x.owner with
+      | .notifyOne _ => ownerMove st x "onotify one (nobody woken)" none (fun _ => none)
+      | _ => mism st x "onotify one: no notify_one pending"
+    | ["onotify", "one", w] =>
+      match w.toNat?, x.owner with
+      | some w, .notifyOne _ => ownerMove st x s!"onotify one {w}" (some w) (fun _ => none)
+      | some _, _ => mism st x "onotify one: no notify_one pending"
+      | none, _ => (st, "bad-op")
+    | "onotify" :: "all" :: ws =>
+      match parseNats ws, x.owner with
+      | some ws, .stopNotify _ =>
+        if sortNat ws == asleepSet x then ownerMove st x "onotify all" none (fun _ => none)
+        else mism st x s!"onotify all: observed woken {sortNat ws}, model has asleep {asleepSet x}"
+      | some _, _ => mism st x "onotify all: no notify_all pending"
+      | none, _ => (st, "bad-op")
+    | ["joined", w] =>
+      match w.toNat?, x.owner with
+      | some w, .join (w' :: _) _ =>
+        if w == w' then ownerMove st x s!"joined {w}" none (fun _ => none)
+        else mism st x s!"joined {w}: model joins {w'} next"
+      | some w, _ => mism st x s!"joined {w}: the owner is not joining"
+      | none, _ => (st, "bad-op")
+    | [ev, w] =>
+      if ev == "odestroy" then mism st x s!"task {w} destroyed by the owner outside a queue critical section"
+      else if ev == "threadCount" || ev == "exit" then
+        match w.toNat? with
+        | none => (st, "bad-op")
+        | some n =>
+          if ev == "threadCount" then
+            if x.pool.length == n then (st, "ok") else mism st x s!"threadCount {n}: model pool has {x.pool.length}"
+          else if ev == "exit" then
+            if x.ws[n]? == some .exited then (st, "ok") else mism st x s!"exit {n}: model worker is {wStr x n}"
+          else (st, "bad-op")
+      else
+      match w.toNat? with
+      | none => (st, "bad-op")
+      | some w =>
+        if ev == "wcs" || ev == "wpark" then
+          match x.ws[w]? with
+          | some wk =>
+            if wk.awake then
+              match xstep? x (.worker w) with
+              | none => mism st x s!"{ev} {w}: no model step"
+              | some y =>
+                let parked := y.ws[w]? == some (.parked false)
+                if (ev == "wpark") == parked then (some y, s!"ok {wStr y w}")
+                else (some y, s!"MISMATCH {ev} {w}: model worker becomes {wStr y w} | {status y}")
+            else mism st x s!"{ev} {w}: model worker is {workerStr wk}, not about to evaluate the predicate"
+          | none => mism st x s!"{ev} {w}: no such worker"
+        else (st, "bad-op")
+    | [ev, t, w] =>
+      match t.toNat?, w.toNat? with
+      | some t, some w =>
+        if ev == "runBegin" then
+          if x.ws[w]? == some (.running t) then (st, "ok") else mism st x s!"runBegin {t} {w}: model worker is {wStr x w}"
+        else if ev == "runEnd" then
+          if x.ws[w]? == some (.running t) then ((xstep? x (.worker w)), "ok") else mism st x s!"runEnd {t} {w}: model worker is {wStr x w}"
+        else if ev == "destroy" then
+          if x.ws[w]? == some (.ran t) then ((xstep? x (.worker w)), "ok") else mism st x s!"destroy {t} by worker {w}: model worker is {wStr x w}"
+        else (st, "bad-op")
+      | _, _ => (st, "bad-op")
+    | ["stopReturned"] =>
+      match x.owner with
+      | .idle _ => if x.stopped then (st, "ok") else mism st x "stopReturned: model has not completed a stop()"
+      | _ => mism st x "stopReturned: model owner is still inside an operation"
+    | ["end"] =>
+      let done := x.owner == .idle [] && x.ws.all (fun w => w == .exited) && x.queue.isEmpty && x.pool.isEmpty
+      if done && (enabled x).isEmpty then (st, "ok") else mism st x s!"end: model not finished (enabled: {enabled x})"
+    | ["stuck"] =>
+      if (enabled x).isEmpty then (st, "ok model-stuck-too") else mism st x s!"stuck: the model can still move: {enabled x}"
+    | ["status"] => (st, status x)
+    | _ => (st, "bad-op")
 
 end Tulz.Drv.Pool
